@@ -154,12 +154,39 @@ use std::collections::HashMap;
 use std::sync::Mutex;
 use std::time::Instant;
 
-static INFLIGHT: Mutex<Option<HashMap<std::thread::ThreadId, (Instant, String)>>> = Mutex::new(None);
+// Time limits are measured in CPU time of the thread that runs the case, not in wall-clock time: on a loaded
+// machine (other checks running, memory pressure) a case can be starved for minutes without the library
+// looping, and a check must not call that a hang. Wall-clock time only decides when to LOOK (and, at ten
+// times the limit, catches a call that is blocked without burning CPU).
+static INFLIGHT: Mutex<Option<HashMap<std::thread::ThreadId, (Instant, String, libc::clockid_t, f64)>>> = Mutex::new(None);
+
+fn clock_secs(clock: libc::clockid_t) -> Option<f64> {
+    let mut ts = libc::timespec { tv_sec: 0, tv_nsec: 0 };
+    if unsafe { libc::clock_gettime(clock, &mut ts) } == 0 {
+        Some(ts.tv_sec as f64 + ts.tv_nsec as f64 * 1e-9)
+    } else {
+        None
+    }
+}
+
+thread_local! {
+    static MY_CPU_CLOCK: libc::clockid_t = {
+        let mut c: libc::clockid_t = 0;
+        if unsafe { libc::pthread_getcpuclockid(libc::pthread_self(), &mut c) } == 0 { c } else { libc::CLOCK_THREAD_CPUTIME_ID }
+    };
+}
+
+/// CPU seconds consumed so far by the calling thread
+pub fn thread_cpu_secs() -> f64 {
+    clock_secs(libc::CLOCK_THREAD_CPUTIME_ID).unwrap_or(0.0)
+}
 
 /// note what the current thread is about to run (the replay line of the case)
 pub fn in_flight(desc: &str) {
+    let clock = MY_CPU_CLOCK.with(|c| *c);
+    let cpu0 = thread_cpu_secs();
     let mut g = INFLIGHT.lock().unwrap();
-    g.get_or_insert_with(HashMap::new).insert(std::thread::current().id(), (Instant::now(), desc.to_string()));
+    g.get_or_insert_with(HashMap::new).insert(std::thread::current().id(), (Instant::now(), desc.to_string(), clock, cpu0));
 }
 
 pub fn done_flight() {
@@ -186,10 +213,16 @@ pub fn start_watchdog(prop: String, tier: String, seed: u64, out: String, limit_
         {
             let g = INFLIGHT.lock().unwrap();
             if let Some(m) = g.as_ref() {
-                for (_, (t, d)) in m.iter() {
+                for (_, (t, d, clock, cpu0)) in m.iter() {
                     let age = t.elapsed().as_secs_f64();
-                    if age > limit_s as f64 || rss > 20_000_000_000 {
+                    if rss > 20_000_000_000 {
                         stuck.push((age, d.clone()));
+                    } else if age > limit_s as f64 {
+                        // the case has been in flight for longer than the limit: has its thread been COMPUTING that long?
+                        let cpu = clock_secs(*clock).map(|c| c - cpu0).unwrap_or(0.0);
+                        if cpu > limit_s as f64 * 0.9 || age > 10.0 * limit_s as f64 {
+                            stuck.push((cpu.max(0.0), d.clone()));
+                        }
                     }
                 }
             }
@@ -202,7 +235,7 @@ pub fn start_watchdog(prop: String, tier: String, seed: u64, out: String, limit_
         let _ = std::fs::create_dir_all(&out);
         let esc = |s: &str| s.replace('\\', "\\\\").replace('"', "\\\"").replace('\n', "\\n");
         let j = format!(
-            "{{\n \"property\": \"{prop}\", \"tier\": \"{tier}\", \"seed\": {seed},\n \"evaluations\": 1, \"distinct_nontrivial\": 0, \"rule\": \"run aborted by the watchdog\", \"requests\": 0,\n \"distribution\": {{}}, \"samples\": [],\n \"failures\": [\n  {{\"kind\": \"oracle\", \"signature\": \"hang-or-runaway-allocation\", \"count\": {}, \"detail\": \"a library call did not return within {limit_s} s or the process grew past 20 GB (running for {:.0} s, resident {} MB); the case in flight is the replay\", \"replay\": \"{}\"}}\n ]\n}}\n",
+            "{{\n \"property\": \"{prop}\", \"tier\": \"{tier}\", \"seed\": {seed},\n \"evaluations\": 1, \"distinct_nontrivial\": 0, \"rule\": \"run aborted by the watchdog\", \"requests\": 0,\n \"distribution\": {{}}, \"samples\": [],\n \"failures\": [\n  {{\"kind\": \"oracle\", \"signature\": \"hang-or-runaway-allocation\", \"count\": {}, \"detail\": \"a library call did not return within {limit_s} s of CPU time (or 10x that in wall-clock time) or the process grew past 20 GB (consumed {:.0} s, resident {} MB); the case in flight is the replay\", \"replay\": \"{}\"}}\n ]\n}}\n",
             stuck.len(), age, rss / 1_000_000, esc(desc)
         );
         let _ = std::fs::write(format!("{out}/summary.json"), j);
